@@ -1,7 +1,8 @@
 ----------------------------- MODULE MC_ErrorMap -----------------------------
 EXTENDS ErrorMap, Json
 Emit == pc = "done" =>
-  PrintT(<<"VEC", ToJson([table |-> table, outcome |-> outcome,
+  PrintT(<<"VEC", ToJson([space |-> space, table |-> table, call |-> callno, outcome |-> outcome,
+     paths |-> [i \in 1..Len(table) |-> Path(i)], decoy |-> Decoy,
      pred |-> [status |-> status, goaerr |-> goaerr, bodyname |-> bodyname, bodyflags |-> bodyflags, writes |-> writes,
                cname |-> cname, cflags |-> cflags, ckind |-> ckind]])>>)
 =============================================================================
